@@ -8,7 +8,7 @@
    step f o     : what the library does for one public operation (Ok file | Raise).
    run_region   : 0 iff every operation of the run is inside the domain on which well-formedness is
                   proved; 1 = eval whose value does not have the shape of the variable whose metadata it
-                  inherits (2 = the completion finding for scalar-returning callables, decided by the Python oracle).  The model describes the code AS REPAIRED by fixes/C01-renameDimensions.patch and
+                  inherits.  The model describes the code AS REPAIRED by fixes/C01-renameDimensions.patch and
                   fixes/C01-binop-broadcast.patch: renameDimensions and the binary operators need no side
                   condition any more (they raise or return a well-formed file). *)
 From PNC Require Import Base.Util Model.FileStruct Proofs.FileStructProofs.
@@ -28,6 +28,17 @@ Theorem C01_step_wf_all_but_eval : forall f o f',
   step f o = Ok f' -> wfb f' = true.
 Proof. exact step_wf_noeval. Qed.
 Print Assumptions C01_step_wf_all_but_eval.
+
+(* COMPLETION clause for applyAlongDimensions, full strength on its documented domain (apply_dom): every named
+   dimension exists, every func1d is a total 1-D function (string reducer, array-returning callable, scalar-returning
+   callable, dictionary form), and a 1-D variable named like a dimension is as long as it (the library probes the new
+   length on that coordinate variable).  From any well-formed file, with any number of dimensions per call, the call
+   COMPLETES and the result is well-formed.  (Model of the code as repaired by 4e9c4b6 and
+   fixes/C01-apply-scalar-callable.patch; before them the dictionary form and scalar callables on a non-leading axis raised.) *)
+Theorem C01_apply_completes : forall f fs,
+  wfb f = true -> apply_dom f fs = true -> exists f', step f (OApply fs) = Ok f' /\ wfb f' = true.
+Proof. exact apply_completes. Qed.
+Print Assumptions C01_apply_completes.
 
 (* Operation sequences of any length (induction over the sequence): the final file is well-formed ... *)
 Theorem C01_run_wf_partial : forall ops f f',
@@ -85,16 +96,6 @@ Theorem C01_eval_broadcast_refuted : exists f f',
 Proof. exists f_tyx. eexists. vm_compute. repeat split; reflexivity. Qed.
 Print Assumptions C01_eval_broadcast_refuted.
 
-(* COMPLETION clause: applyAlongDimensions(x=np.mean) — a callable func1d returning a scalar, which
-   numpy.apply_along_axis (named in the docstring) accepts — on an existing dimension of a well-formed file RAISES when
-   the axis is not leading (the reduced axis is dropped and the result cannot be assigned into the length-1 axis),
-   although the same call completes on the leading axis *)
-Theorem C01_apply_scalar_completion_refuted : exists f d,
-  wfb f = true /\ has d (fdims f) = true /\ step f (OApply [(d, AScalar)]) = Raise
-  /\ exists d' f', has d' (fdims f) = true /\ step f (OApply [(d', AScalar)]) = Ok f' /\ wfb f' = true.
-Proof. exists f_tyx, 6. vm_compute. repeat split; try reflexivity. exists 4. eexists. repeat split; reflexivity. Qed.
-Print Assumptions C01_apply_scalar_completion_refuted.
-
 (* hence the invariant over arbitrary sequences is refuted as well *)
 Theorem C01_run_wf_refuted : exists f ops f',
   wfb f = true /\ forallb operands_ok ops = true /\ run f ops = Ok f' /\ wfb f' = false.
@@ -116,6 +117,12 @@ Example C01_repaired_witnesses :
 Proof.
   vm_compute. repeat split; try reflexivity; eexists; repeat split; reflexivity.
 Qed.
+
+Example C01_apply_scalar_repaired :
+  apply_dom f_tyx [(6, AScalar); (4, ADict)] = true
+  /\ exists f', step f_tyx (OApply [(6, AScalar); (4, ADict)]) = Ok f'
+               /\ lookup 11 (fvars f') = Some (Var [4; 5; 6] [1; 3; 1] [(0, true)]).     (* x=np.mean, t=dict(func1d=np.diff) *)
+Proof. vm_compute. split; [reflexivity|]. eexists. split; reflexivity. Qed.
 
 (* ---- non-vacuity ------------------------------------------------------------------------------------ *)
 (* a six-step run inside the proved domain that really changes the structure: slice with two index arrays
